@@ -356,7 +356,7 @@ structure URel (b b' : Buf) (x y w : Int) (m : Nat) : Prop where
   zero : ∀ i j, (b.cells i j).lastMain = 0 → (b'.cells i j).lastMain = 0
   reg : ∀ i j, b.inRange i j → x ≤ i → i < x + w.toNat → y ≤ j → j < y + m → (b'.cells i j).lastMain = 0
   left : ∀ j, b.inRange (x - 1) j → 0 < w → y ≤ j → j < y + m → (b.getContent (x - 1) j).2.2.2 > 1 →
-    (b'.cells (x - 1) j).lastMain = 0
+    b.locked x j = true → (b'.cells (x - 1) j).lastMain = 0
 
 theorem URel.refl (b : Buf) (x y w : Int) : URel b b x y w 0 :=
   { dw := rfl, dh := rfl, cont := fun _ _ => ⟨rfl, rfl⟩, lock := fun _ _ => Or.inl rfl, zero := fun _ _ h => h,
@@ -384,25 +384,32 @@ theorem lockRowsG_false_urel (b : Buf) (x y w : Int) : ∀ m, URel b (lockRowsG 
         · simpa [Cell.setLock, Cell.markDirty] using ih.cont (x - 1) (y + m)
         · exact ih.cont _ _
       rw [this.1, this.2]
+    -- the rows before this one have not touched the locks of row y+m: "was locked" can be read off `b`
+    have hlk : b1.locked x (y + m) = b.locked x (y + m) := by
+      have hl : (b1.cells x (y + m)).lock = (b.cells x (y + m)).lock := by
+        rcases ih.lock x (y + m) with h | h
+        · exact h
+        · exfalso; omega
+      simp only [Buf.locked, inRange_iff, ih.dw, ih.dh, hl]
     -- the row step: lockRow, then the re-dirtying of the left neighbour
     have hstep : lockRowsG b x y w false (m + 1) =
-        if w > 0 then redirtyLeft b2 x (y + m) else b2 := by
-      simp only [lockRowsG, hb1, hb2, true_and]
+        if w > 0 ∧ b.locked x (y + m) = true then redirtyLeft b2 x (y + m) else b2 := by
+      simp only [lockRowsG, hb1, hb2, true_and, hlk]
     rw [hstep]
     -- closed form of the result
-    have h3 : ∀ (b3 : Buf), b3 = (if w > 0 then redirtyLeft b2 x (y + m) else b2) →
+    have h3 : ∀ (b3 : Buf), b3 = (if w > 0 ∧ b.locked x (y + m) = true then redirtyLeft b2 x (y + m) else b2) →
         b3.w = b.w ∧ b3.h = b.h ∧ ∀ i j, b3.cells i j =
-          if i = x - 1 ∧ j = y + m ∧ w > 0 ∧ (b.getContent (x - 1) (y + m)).2.2.2 > 1 ∧ b.inRange (x - 1) (y + m)
+          if i = x - 1 ∧ j = y + m ∧ (w > 0 ∧ b.locked x (y + m) = true) ∧ (b.getContent (x - 1) (y + m)).2.2.2 > 1 ∧ b.inRange (x - 1) (y + m)
           then (b2.cells i j).markDirty else b2.cells i j := by
       intro b3 e
-      by_cases hw : w > 0
+      by_cases hw : w > 0 ∧ b.locked x (y + m) = true
       · rw [if_pos hw] at e
         unfold redirtyLeft at e
         rw [hg2] at e
         by_cases hg : (b.getContent (x - 1) (y + m)).2.2.2 > 1
         · rw [if_pos hg] at e; rw [e]
           refine ⟨by simp [h2w], by simp [h2h], ?_⟩
-          intro i j; rw [setDirty_true_cells]; simp only [inRange_iff, h2w, h2h, hw, hg, true_and]
+          intro i j; rw [setDirty_true_cells]; simp only [inRange_iff, h2w, h2h, hw, hg, true_and, and_self]
         · rw [if_neg hg] at e; rw [e]
           refine ⟨h2w, h2h, ?_⟩
           intro i j; rw [if_neg (fun hh => hg hh.2.2.2.1)]
@@ -410,7 +417,7 @@ theorem lockRowsG_false_urel (b : Buf) (x y w : Int) : ∀ m, URel b (lockRowsG 
         refine ⟨h2w, h2h, ?_⟩
         intro i j; rw [if_neg (fun hh => hw hh.2.2.1)]
     obtain ⟨h3w, h3h, h3c⟩ := h3 _ rfl
-    generalize (if w > 0 then redirtyLeft b2 x (y + m) else b2) = b3 at h3w h3h h3c
+    generalize (if w > 0 ∧ b.locked x (y + m) = true then redirtyLeft b2 x (y + m) else b2) = b3 at h3w h3h h3c
     have hcm : ((m + 1 : Nat) : Int) = (m : Int) + 1 := by omega
     refine { dw := h3w, dh := h3h, cont := ?_, lock := ?_, zero := ?_, reg := ?_, left := ?_ }
     · intro i j; rw [h3c, h2c]
@@ -421,7 +428,7 @@ theorem lockRowsG_false_urel (b : Buf) (x y w : Int) : ∀ m, URel b (lockRowsG 
       · right; rw [if_pos hrg]
         refine ⟨by split <;> simp [Cell.setLock, Cell.markDirty], hrg.2.1, hrg.2.2.1, by omega, by omega⟩
       · rw [if_neg hrg]
-        have : (if i = x - 1 ∧ j = y + m ∧ w > 0 ∧ (b.getContent (x - 1) (y + m)).2.2.2 > 1 ∧ b.inRange (x - 1) (y + m)
+        have : (if i = x - 1 ∧ j = y + m ∧ (w > 0 ∧ b.locked x (y + m) = true) ∧ (b.getContent (x - 1) (y + m)).2.2.2 > 1 ∧ b.inRange (x - 1) (y + m)
             then (b1.cells i j).markDirty else b1.cells i j).lock = (b1.cells i j).lock := by split <;> rfl
         rw [this]
         rcases ih.lock i j with h | h
@@ -437,12 +444,12 @@ theorem lockRowsG_false_urel (b : Buf) (x y w : Int) : ∀ m, URel b (lockRowsG 
         rw [if_pos hrg]; split <;> simp [Cell.setLock, Cell.markDirty]
       · have := ih.reg i j hr a1 a2 a3 (by omega)
         split <;> split <;> simp [Cell.setLock, Cell.markDirty, this]
-    · intro j hr hw a3 a4 hg; rw [h3c, h2c]
+    · intro j hr hw a3 a4 hg hlj; rw [h3c, h2c]
       rw [hcm] at a4
       by_cases hj : j = y + m
       · subst hj
-        rw [if_pos ⟨rfl, rfl, hw, hg, hr⟩]; simp [Cell.markDirty]
-      · have := ih.left j hr hw a3 (by omega) hg
+        rw [if_pos ⟨rfl, rfl, ⟨hw, hlj⟩, hg, hr⟩]; simp [Cell.markDirty]
+      · have := ih.left j hr hw a3 (by omega) hg hlj
         split <;> split <;> simp [Cell.setLock, Cell.markDirty, this]
 
 /-- LockRegion(…, false) of the repaired tree keeps what the invariant remembers about guarded blanks: a cell whose right
@@ -465,7 +472,14 @@ theorem lockRowsG_false_blank (b : Buf) (x y w : Int) (m : Nat) (i j : Int)
       · exact u.reg i j hr hx (by omega) hl.2.2.2.1 hl.2.2.2.2
       · have e : i = x - 1 := by omega
         subst e
-        exact u.left j hr (by omega) hl.2.2.2.1 hl.2.2.2.2 (by omega)
+        -- the blank was painted because the neighbour — the first cell of the region's row — was locked: `BlankOk`
+        have hwas : b.locked (x - 1 + 1) j = true := by
+          rcases h.2 with h2 | h2
+          · exact h2
+          · exact absurd h2 hg
+        have e1 : x - 1 + 1 = x := by omega
+        rw [e1] at hwas
+        exact u.left j hr (by omega) hl.2.2.2.1 hl.2.2.2.2 (by omega) hwas
 
 /-- application-level buffer operations preserve the cross-Show invariant -/
 theorem SyncInv.bufStep {c : DrawCfg} {d : Option Style} {s s' : Scr} {t : ATerm} (inv : SyncInv c d s t)
